@@ -11,6 +11,8 @@ structure RecV where
   key : String
   val : String
   dirty : Bool
+  /-- the object has a file pointer (loaded from the file or written by a flush) -/
+  persisted : Bool
 
 structure Th where
   name : String
@@ -31,6 +33,13 @@ structure DSt where
   next : Nat
   /-- the model state already violated `Durable` (flag only once per case) -/
   flagged : Bool
+  /-- fact: SaveFunction drops a queued delete marker when the key is re-created, and deleteHandler queues a
+      marker only for an object that has a file pointer -/
+  recreateDropsMarker : Bool
+  /-- delete markers queued in the write buffer of the mapped instance -/
+  markers : List String
+  /-- keys whose delete was acknowledged and that were not set again -/
+  ackDel : List String
 
 def keyNum (k : String) : Nat := match k with | "a" => 1 | "b" => 2 | "c" => 3 | _ => 9
 
@@ -46,11 +55,16 @@ def act (d : DSt) (a : Act) : Option DSt :=
   | some s' =>
     -- mirror the value-level effects of instance creation and flushes
     let d1 := { d with s := s' }
-    let d2 := if s'.gen != d.s.gen then setMem d1 s'.gen (d.fileV.map (fun r => { r with dirty := false })) else d1
+    let d2 := if s'.gen != d.s.gen then
+        { setMem d1 s'.gen (d.fileV.map (fun r => { r with dirty := false, persisted := true })) with markers := [] } else d1
+    let flush := fun (x : DSt) =>
+      let m := memOf x s'.gen
+      let kept := x.fileV.filter (fun r => !m.any (·.key == r.key) && !x.markers.contains r.key)
+      { setMem x s'.gen (m.map (fun r => { r with persisted := true })) with fileV := m ++ kept, markers := [] }
     let d3 := match a with
-      | .closeFlush => { d2 with fileV := memOf d2 s'.gen }
-      | .flushTick => { d2 with fileV := memOf d2 s'.gen }
-      | .destroyFinish _ => if s'.live then d2 else { d2 with fileV := [] }
+      | .closeFlush => flush d2
+      | .flushTick => flush d2
+      | .destroyFinish _ => if s'.live then d2 else { d2 with fileV := [], markers := [] }
       | _ => d2
     some d3
 
@@ -63,7 +77,9 @@ def flag (d0 d : DSt) (cause : String) : DSt × String :=
 def writeV (d : DSt) (g : Nat) (k v : String) : DSt × String :=
   let m := memOf d g
   match m.find? (·.key == k) with
-  | none => (setMem d g (m ++ [{ key := k, val := v, dirty := true }]), "NEW")
+  | none =>
+    let d' := if d.recreateDropsMarker && g == d.s.gen then { d with markers := d.markers.filter (· != k) } else d
+    ({ setMem d' g (m ++ [{ key := k, val := v, dirty := true, persisted := false }]) with ackDel := d.ackDel.filter (· != k) }, "NEW")
   | some r =>
     if r.dirty || r.val != v then
       (setMem d g (m.map (fun x => if x.key == k then { x with val := v, dirty := true } else x)), "UPDATED")
@@ -71,7 +87,11 @@ def writeV (d : DSt) (g : Nat) (k v : String) : DSt × String :=
 
 def delV (d : DSt) (g : Nat) (k : String) : DSt × String :=
   let m := memOf d g
-  if m.any (·.key == k) then (setMem d g (m.filter (·.key != k)), "DELETED") else (d, "NOT_FOUND")
+  match m.find? (·.key == k) with
+  | some r =>
+    let d' := if r.persisted && g == d.s.gen && !d.markers.contains k then { d with markers := d.markers ++ [k] } else d
+    ({ setMem d' g (m.filter (·.key != k)) with ackDel := d.ackDel ++ [k] }, "DELETED")
+  | none => (d, "NOT_FOUND")
 
 def summonActs (d : DSt) (t : Nat) : List Act := if d.cfg.atomicSummon then [.summon t] else [.summon t, .begin t]
 
@@ -84,7 +104,7 @@ def idOf (n : String) : Nat := match n with | "A" => 1 | "B" => 2 | "C" => 3 | _
 def step (d : DSt) (line : String) : DSt × String :=
   match words line with
   | ["case", _, _, _] =>
-    ({ d with s := init [], gens := [], fileV := [], ths := [], next := 10, flagged := false }, line)
+    ({ d with s := init [], gens := [], fileV := [], ths := [], next := 10, flagged := false, markers := [], ackDel := [] }, line)
   | ["set", k, v] =>
     let t := d.next
     match acts d (summonActs d t) with
@@ -96,7 +116,7 @@ def step (d : DSt) (line : String) : DSt × String :=
       | some d3 => ({ d3 with next := t + 1 }, st)
       | none => (d, "ERR")
   | ["del", k] =>
-    if !d.s.live && d.s.file.isEmpty then (d, "NOT_FOUND") else
+    if !d.s.live && d.fileV.isEmpty then (d, "NOT_FOUND") else
     let t := d.next
     match acts d (summonActs d t) with
     | none => (d, "hang")
@@ -121,7 +141,7 @@ def step (d : DSt) (line : String) : DSt × String :=
       ({ d1 with ths := d1.ths ++ [t] }, s!"{n}@gw.set.summoned")
   | ["spawn", n, "del", k] =>
     if d.ths.any (·.name == n) then (d, "bad-op") else
-    if !d.s.live && d.s.file.isEmpty then (d, s!"{n} done NOT_FOUND") else
+    if !d.s.live && d.fileV.isEmpty then (d, s!"{n} done NOT_FOUND") else
     let tid := idOf n
     match acts d (summonActs d tid) with
     | none => (d, s!"{n} stuck")
@@ -192,12 +212,15 @@ def step (d : DSt) (line : String) : DSt × String :=
     | some d2 => (d2, "closed")
     | none => (d, "ERR")
   | ["reopen"] =>
-    if d.s.live then (d, showKeys (memOf d d.s.gen))
-    else if d.s.file.isEmpty then (d, "keys=[]")
+    let back := fun (x : DSt) => if (memOf x x.s.gen).any (fun r => x.ackDel.contains r.key) then "\t#F:C16-delete-after-recreate-resurrects" else ""
+    if d.s.live then (d, showKeys (memOf d d.s.gen) ++ back d)
+    else if d.fileV.isEmpty then (d, "keys=[]")
     else
       let t := d.next
-      match acts d (summonActs d t ++ [.cease t]) with
-      | some d1 => ({ d1 with next := t + 1 }, showKeys (memOf d1 d1.s.gen))
+      -- the value-level file may hold keys the key-set model has dropped (lost delete markers)
+      let d0 := { d with s := { d.s with file := d.fileV.map (fun r => keyNum r.key) } }
+      match acts d0 (summonActs d0 t ++ [.cease t]) with
+      | some d1 => ({ d1 with next := t + 1 }, showKeys (memOf d1 d1.s.gen) ++ back d1)
       | none => (d, "hang")
   | _ => (d, "bad-op")
 
@@ -206,7 +229,8 @@ def run (args : List String) : IO UInt32 := do
   let yes := fun (k : String) => arg kv k == "yes"
   let cfg : Cfg := { destroyRechecks := yes "destroyRechecksAfterDrain",
                      atomicSummon := yes "listenerReadsTouchUnderLock" && yes "summonTakesVigil" }
-  lineLoop step { cfg := cfg, s := init [], gens := [], fileV := [], ths := [], next := 10, flagged := false }
+  lineLoop step { cfg := cfg, s := init [], gens := [], fileV := [], ths := [], next := 10, flagged := false,
+                  recreateDropsMarker := arg kv "recreateDropsDeleteMarker" != "no", markers := [], ackDel := [] }
   return 0
 
 end Driver.C16
